@@ -186,6 +186,14 @@ class Model:
     def depth(self, path):
         return 0 if path == '/' else path.count('/')
 
+    def relocation_active(self):
+        """True while at least one directory is relocated (Rock Ridge, not level
+        4: directories at a depth that is a multiple of 8); the relocation
+        directory exists exactly then."""
+        if not self.cfg.rr or self.cfg.level == 4:
+            return False
+        return any(n.kind == 'dir' and self.depth(p) % 8 == 0 for p, n in self.ns['iso'].items())
+
     # ---- expected views -----------------------------------------------------
     def view(self, ns):
         """{path: tuple} in the same shape as apiview.view()."""
@@ -279,7 +287,16 @@ class Model:
             ons, opath = op['old']
             cid = self.ns[ons][opath].cid
         nns, npath = op['new']
-        self._add_file_node(nns, npath, cid, op.get('rr_name') if nns == 'iso' else None)
+        mode = None
+        if nns == 'iso' and self.cfg.rr and not op.get('boot_catalog_old'):
+            if op['old'][0] == 'iso':
+                mode = self.ns['iso'][op['old'][1]].mode
+            else:
+                modes = [self.ns['iso'][p].mode for (n2, p) in self.names_of(cid) if n2 == 'iso']
+                mode = modes[0] if modes else None
+                if not modes:
+                    mode = 0o100444
+        self._add_file_node(nns, npath, cid, op.get('rr_name') if nns == 'iso' else None, mode)
         if op.get('boot_catalog_old'):
             self.boot['catalog'].append((nns, npath))
 
